@@ -8,5 +8,23 @@ CHECKS = {
     },
 }
 
+CHECKS.update({
+    "C01": {
+        "text": "Lean theorems over the model of Call.Reply/ReplyError/sendMessage and of the handleConnection loop: oneway calls never write; continues only on more-calls, otherwise refused, reported and silent; frames written = API calls that reported success, in order; connection answers in arrival order, stops at the first handler error or undecodable frame; under any schedule of any number of connections each connection's trace equals its trace alone. Tied to the code by running the real per-connection loop on scripted handlers.",
+        "note": "Partial: goroutine scheduling inside one handler and real socket timing are not modelled (sampled by the N-connection socket runs). Trusted: Lean kernel, harness, hand-written model validated differentially, model of encoding/json.",
+        "technique": "Lean 4 theorems (induction over scripts, frames and schedules) + differential correspondence",
+    },
+    "C12": {
+        "text": "Lean theorems: ReplyError accepts exactly names <interface>.<Name> outside org.varlink.service, refusals write nothing; accepted error frames carry exactly name and parameters; the client maps the four reserved names to their typed errors with the payload the service put in and every other name to the generic error with name and parameters unchanged. Tied by scripted handlers sending generated error names/parameters through the real service loop.",
+        "note": "Trusted: Lean kernel, harness, model of encoding/json. The wire leg (render/parse) is the C03 round-trip.",
+        "technique": "Lean 4 theorems (decision logic iff) + differential correspondence",
+    },
+    "C18": {
+        "text": "Lean theorem stream_exactly_once: for every interleaving of frame reads and raw reads, every stream and segmentation, the concatenation of what the operations return plus what is still pending is the original stream (proved from a general lemma about the bufio model, any capacity). The model's read path is regenerated from ctxio/conn.go by the extractor (theorem raw_read_uses_the_buffered_reader fails to build if Read bypasses the bufio.Reader again); the model is compared with the real ctxio.Conn over scripted segmentations on every run.",
+        "note": "Trusted: Lean kernel, extractor, harness, bufio model (validated differentially every run).",
+        "technique": "Lean 4 theorem over a bufio model + regenerated source fact + differential correspondence",
+    },
+})
+
 _WIP = "machinery for this property is not built yet in this snapshot (work in progress; see DESIGN.md build order)"
 NOT_APPLICABLE = {p: _WIP for p in ["C%02d" % i for i in range(1, 21)] if p not in CHECKS}
